@@ -15,7 +15,7 @@ from harness.engine import ImplError, drive, impl
 from harness.plans import plan
 
 ID = "C06"
-ARGS = {"s1": ((), {}), "kw2": ((), {"scale": 2.0}), "pos3": ((3.0,), {}), "vec": (([1.0, 2.0],), {})}
+ARGS = {"s1": ((), {}), "kw2": ((), {"scale": 2.0}), "pos3": ((3.0,), {}), "pos5": ((0.5,), {}), "kw4": ((), {"scale": 4.0}), "vec": (([1.0, 2.0],), {})}
 
 
 def arg_values(name):
@@ -52,10 +52,20 @@ def run_history(case):
     shapes = case["programs"]
     K = "|" + "+".join(sorted({x for s in shapes for k in seedir.kinds(s) for x in k}) or ["top"])
     info = {"ops": 0, "repeats_after_interference": 0, "modes": set(), "interference": 0}
-    fns = [impl(seedir.build, s) for s in shapes]
+    raw = [impl(seedir.build, s) for s in shapes]
+
+    def seeded(g, shape):
+        """seed(g) as a function of (key, *args); programs with a nested seed receive its key as an argument derived from the outer key"""
+        if "nseed" in str(shape):
+            return lambda kk, *a, **kw: seed(g)(kk, *a, ikey=jax.random.fold_in(kk, 12345), **kw)
+        return seed(g)
+
+    fns = raw
+    sfn = [seeded(g, s) for g, s in zip(raw, shapes)]
     jits = {}
     table = {}  # (p, k, arg) -> {"mode":..., "res":..., "since_interference":...}
     interfered_since = {}
+    unit = {}  # (p, k) -> (argname, result / scale) of the first scalar-scale run
     fails = []
 
     def key_of(k):
@@ -77,7 +87,7 @@ def run_history(case):
                         impl(normal.sample, 0.0, 1.0)
                 elif kind == "unseeded_program":
                     p = op["p"] % len(fns)
-                    if "scan" not in str(shapes[p]) and "cond" not in str(shapes[p]) and "remat" not in str(shapes[p]):
+                    if "scan" not in str(shapes[p]) and "cond" not in str(shapes[p]) and "remat" not in str(shapes[p]) and "nseed" not in str(shapes[p]):
                         impl(fns[p])
                     else:
                         impl(normal.sample, 0.0, 1.0)
@@ -87,7 +97,7 @@ def run_history(case):
                 elif kind == "other_shape":
                     p = op["p"] % len(fns)
                     g = impl(seedir.build, shapes[p])
-                    impl(seed(g), key_of(9), jnp.asarray(0.5, dtype=jnp.float32))
+                    impl(seeded(g, shapes[p]), key_of(9), jnp.asarray(0.5, dtype=jnp.float32))
                 continue
             p, k, mode, argname = op["p"] % len(fns), op["k"], op["mode"], op["arg"]
             if not compatible(shapes[p], argname):
@@ -96,13 +106,13 @@ def run_history(case):
             f = fns[p]
             info["modes"].add(mode)
             if mode == "eager":
-                res = to_np(impl(seed(f), key_of(k), *a, **kw))
+                res = to_np(impl(sfn[p], key_of(k), *a, **kw))
             elif mode == "jit":
-                jf = jits.setdefault((p, "jit"), jax.jit(seed(f)))
+                jf = jits.setdefault((p, "jit"), jax.jit(sfn[p]))
                 res = to_np(impl(jf, key_of(k), *a, **kw))
             else:
                 keys = jnp.stack([key_of(k + 1), key_of(k), key_of(k + 2)])
-                vf = jax.vmap(lambda kk: seed(f)(kk, *a, **kw))
+                vf = jax.vmap(lambda kk: sfn[p](kk, *a, **kw))
                 if mode == "jit_vmap_keys":
                     vf = jits.setdefault((p, "jv", argname), jax.jit(vf))
                 out = to_np(impl(vf, keys))
@@ -117,6 +127,22 @@ def run_history(case):
                 info["rejected"] = info.get("rejected", 0) + 1  # seed may refuse constructs it does not interpret (C14); nothing to compare
                 continue
             return [(f"raises[{op.get('mode', op.get('kind'))}]:{e.sig()}{K}", f"step {step} {op}: {e}")], info
+        # the result is a function of the *value* of the arguments: every position of a seedir program is scale * draw
+        # with standard parameters, so results for two scalar scales differ exactly by their ratio (stale closed-over
+        # constants of an earlier call with the same argument shapes would break this)
+        if argname != "vec":
+            sc = {"s1": 1.0, "kw2": 2.0, "pos3": 3.0, "pos5": 0.5, "kw4": 4.0}[argname]
+            t2 = (p, k)
+            if t2 not in unit:
+                unit[t2] = (argname, {q: np.asarray(v, dtype=np.float64) / sc for q, v in res.items()})
+            elif unit[t2][0] != argname:
+                info["arg_value_pairs"] = info.get("arg_value_pairs", 0) + 1
+                base_u = unit[t2][1]
+                badq = [q for q in res if q in base_u and not gfi.ulp_close((np.asarray(res[q], dtype=np.float64) / sc).astype(np.float32), base_u[q].astype(np.float32), 16)]
+                if badq:
+                    q = badq[0]
+                    fails.append((f"result_ignores_argument_value{K}", f"step {step}: program {p} key {k}: with scale argument {argname} position {q} = {np.asarray(res[q]).ravel()[:3].tolist()}, "
+                                  f"but scale * (unit-scale result from the {unit[t2][0]} run) = {(base_u[q] * sc).ravel()[:3].tolist()}"))
         t = (p, k, argname)
         if t not in table:
             table[t] = {"mode": mode, "res": res}
@@ -153,14 +179,14 @@ def histories(remat=False):
     from hypothesis import strategies as st
 
     run = st.fixed_dictionaries({"op": st.just("run"), "p": st.integers(0, 2), "k": st.integers(0, 1),
-                                 "mode": st.sampled_from(["eager", "eager", "jit", "vmap_keys", "jit_vmap_keys"]), "arg": st.sampled_from(["s1", "s1", "s1", "s1", "kw2", "pos3", "vec"])})
+                                 "mode": st.sampled_from(["eager", "eager", "jit", "vmap_keys", "jit_vmap_keys"]), "arg": st.sampled_from(["s1", "s1", "s1", "kw2", "pos3", "pos3", "pos5", "pos5", "kw4", "vec"])})
     interfere = st.one_of(
         st.fixed_dictionaries({"op": st.just("interfere"), "kind": st.just("unseeded_site"), "n": st.integers(1, 5)}),
         st.fixed_dictionaries({"op": st.just("interfere"), "kind": st.just("unseeded_program"), "p": st.integers(0, 2)}),
         st.fixed_dictionaries({"op": st.just("interfere"), "kind": st.just("clear_caches")}),
         st.fixed_dictionaries({"op": st.just("interfere"), "kind": st.just("other_shape"), "p": st.integers(0, 2)}),
     )
-    progs = st.lists(seedir.shapes(max_leaves=4), min_size=1, max_size=2)
+    progs = st.lists(seedir.shapes(max_leaves=4, nseed=True), min_size=1, max_size=2)
     if remat:  # programs seed may refuse (then nothing is compared); if it accepts them the result must still be pure
         progs = st.lists(st.builds(lambda s, k: ["remat", s, k], seedir.shapes(max_leaves=2), st.sampled_from(["checkpoint", "custom_jvp"])), min_size=1, max_size=1)
     return st.fixed_dictionaries({"programs": progs, "key": st.integers(0, 2**30),
@@ -175,6 +201,8 @@ def one_case(ctx, case):
     ctx.case(case, nt, [f"C06.mode_{m}" for m in sorted(info["modes"])] + [f"C06.prog_with_{k}" for k in kinds] + (["C06.repeat_after_interference"] if info["repeats_after_interference"] else []),
              sample={**case, "info": {**info, "modes": sorted(info["modes"])}})
     ctx.count("C06.ops_total", info["ops"])
+    if info.get("arg_value_pairs"):
+        ctx.count("C06.same_key_other_argument_value_compared", info["arg_value_pairs"])
     if info.get("rejected"):
         ctx.count("C06.runs_refused_by_seed_with_the_dedicated_error", info["rejected"])
     for b, w in fails:
